@@ -1318,8 +1318,10 @@ def translate_all(repo, modules, out_dir):
             lines.append('(* %s:%d *)' % (m['file'], spec.node.lineno))
             lines.append(code)
             if not code.startswith('(* UNTRANSLATABLE'):
-                done.append({'name': spec.coq_name, 'line': spec.node.lineno, 'raises': spec.raises,
-                             'ret': coq_type(spec.ret)})
+                done.append({'name': spec.coq_name, 'py_name': spec.name, 'line': spec.node.lineno,
+                             'raises': spec.raises, 'ret': coq_type(spec.ret), 'ret_ty': spec.ret,
+                             'params': [[pn, pt] for pn, pt in spec.params],
+                             'wrapper_of': spec.wrapper_of})
         text = '\n'.join(lines) + '\n'
         path = os.path.join(out_dir, m['coq_module'] + '.v')
         old = open(path).read() if os.path.exists(path) else None
